@@ -232,7 +232,7 @@ def gen_blocks(c, depth, n, in_item=False, in_quote=False, tight=False):
         elif k < 73 and depth < 3:
             b = N('quote', children=gen_blocks(c, depth + 1, 1 + t.below(3), False, True), markers=None)
         elif k < 88 and depth < 3:
-            b = gen_list(c, depth, in_quote)
+            b = gen_list(c, depth, in_quote, nested=in_item)
         elif k < 94:
             b = gen_table(c)
         elif not c.reflow or True:
@@ -333,7 +333,7 @@ def gen_fence(c):
              unclosed=False)
 
 
-def gen_list(c, depth, in_quote):
+def gen_list(c, depth, in_quote, nested=False):
     t = c.t
     ordered = t.chance(100)
     n_items = 1 + t.below(3)
@@ -348,7 +348,7 @@ def gen_list(c, depth, in_quote):
             children = gen_blocks(c, depth + 1, 1, True, in_quote, tight=True)
             if t.chance(70) and depth < 2 and c.blocks < c.max_blocks:
                 c.blocks += 1
-                sub = gen_list(c, depth + 1, in_quote)
+                sub = gen_list(c, depth + 1, in_quote, nested=True)
                 sub.a['indent'] = 0
                 children.append(sub)
         items.append(N('item', children=children, pad=1 if c.canonical else t.weighted([(5, 1), (2, 2), (1, 3), (1, 4)]),
@@ -356,6 +356,9 @@ def gen_list(c, depth, in_quote):
                                     and children[0].kind not in ('icode',))))
     if loose and n_items == 1 and len(items[0].children) < 2:
         loose = False
+    if nested and 'empty_last_item_then_sibling' in c.exclude and not items[-1].children:
+        # recorded finding: blank lines after an empty last item of a nested list are not seen by the enclosing list
+        items[-1].a['children'] = [N('para', inl=[N('text', s='filler')], indent=0)]
     return N('list', ordered=ordered, start=t.choice([1, 1, 1, 0, 7, 42, 999999999 - n_items + 1]) if ordered else None,
              delim=t.choice('.)'), bullet=t.choice('-+*'), loose=loose, items=items)
 
